@@ -59,6 +59,9 @@ impl Scenario for C07 {
   fn name(&self) -> &'static str {
     "c07.des"
   }
+  fn weight(&self) -> usize {
+    6
+  }
   fn components(&self) -> (&'static [&'static str], &'static [&'static str]) {
     (
       &["ops/observe_on.rs", "ops/delay.rs (DelayOp, DelayOpThreads, DelaySubscriptionOp)", "ops/subscribe_on.rs", "observable.rs (_at constructors)", "scheduler.rs (schedule, OnceTask, Remote, TaskHandle)", "MultiSubscription(Threads)"],
@@ -315,9 +318,154 @@ impl Scenario for C07 {
 pub fn check_def() -> PropertyCheck {
   PropertyCheck {
     id: "C07",
-    scenarios: vec![Box::new(C07)],
+    scenarios: vec![Box::new(C07), Box::new(C07Feedback)],
     runs: (300_000, 30_000_000),
     rule: "case = operator (observe_on, delay d, delay_at, delay_subscription(_at), subscribe_on; local and _threads; d in {0,1,5,20}ms, instants before/at/after now) x hot timed source | cold source x executor policy (FIFO queue | any ready task may run next) x script of emit/complete/error/run-task-#k/advance/jump, then quiescence under the same policy; non-trivial = a run decision had >=2 ready tasks or the clock jumped over >=2 deadlines",
     assumptions: vec!["the any-ready-task policy is the sequential abstraction of a multi-worker pool (tasks never run in parallel here; the thread-mode arm of C10 covers that)"],
+  }
+}
+
+// ----------------------------------------------------------------- feedback
+
+/// A subscriber that, from inside its callback, feeds the next item into the
+/// hot source of its own pipeline (a trampolined loop through the scheduler).
+struct FeedbackProbe {
+  log: std::sync::Arc<ProbeLog>,
+  limit: i64,
+  local: Option<crate::props::c06::AssertSend<Subject<'static, Val, E>>>,
+  shared: Option<SubjectThreads<Val, E>>,
+}
+
+impl Observer<Val, E> for FeedbackProbe {
+  fn next(&mut self, v: Val) {
+    Observer::<Val, E>::next(&mut Probe(self.log.clone()), v.clone());
+    if let Val::I(k) = v {
+      if k < self.limit {
+        if let Some(s) = &mut self.local {
+          s.0.next(Val::I(k + 1));
+        }
+        if let Some(s) = &mut self.shared {
+          s.next(Val::I(k + 1));
+        }
+      }
+    }
+  }
+  fn error(self, e: E) {
+    Observer::<Val, E>::error(Probe(self.log.clone()), e)
+  }
+  fn complete(self) {
+    Observer::<Val, E>::complete(Probe(self.log.clone()))
+  }
+  fn is_finished(&self) -> bool {
+    false
+  }
+}
+
+#[derive(Clone, Debug, Serialize, Deserialize)]
+pub struct FCase {
+  /// 0 observe_on, d>0 delay of d x 100us
+  delay: u32,
+  threads_flavour: bool,
+  limit: u8,
+  any_ready: bool,
+  choices: Vec<u8>,
+}
+
+pub struct C07Feedback;
+impl Scenario for C07Feedback {
+  fn name(&self) -> &'static str {
+    "c07.feedback"
+  }
+  fn weight(&self) -> usize {
+    1
+  }
+  fn components(&self) -> (&'static [&'static str], &'static [&'static str]) {
+    (&["observe_on / delay (+ _threads) with the source fed from inside the delivery of the previous item"], &["executor, timer, clock (sim)"])
+  }
+  fn generate(&self, rng: &mut Rng, _tier: Tier) -> Value {
+    serde_json::to_value(FCase {
+      delay: *rng.pick(&[0u32, 0, 3, 10]),
+      threads_flavour: rng.chance(1, 2),
+      limit: rng.range(2, 6) as u8,
+      any_ready: rng.chance(1, 2),
+      choices: (0..rng.below(6)).map(|_| rng.below(4) as u8).collect(),
+    })
+    .unwrap()
+  }
+  fn run(&self, case: &Value) -> Result<Outcome, String> {
+    let case: FCase = serde_json::from_value(case.clone()).map_err(|e| e.to_string())?;
+    if case.limit < 1 || case.limit > 20 || case.delay > 1000 {
+      return Err("bad shape".into());
+    }
+    let w = World::new();
+    let log = ProbeLog::new(false);
+    let mut hot_l = Subject::<'static, Val, E>::default();
+    let mut hot_s = SubjectThreads::<Val, E>::default();
+    let d = Duration::from_micros(case.delay as u64 * 100);
+    let _sub: Box<dyn std::any::Any> = if !case.threads_flavour {
+      let p = FeedbackProbe { log: log.clone(), limit: case.limit as i64, local: Some(crate::props::c06::AssertSend(hot_l.clone())), shared: None };
+      if case.delay == 0 {
+        Box::new(hot_l.clone().observe_on(local_sched()).actual_subscribe(p))
+      } else {
+        Box::new(hot_l.clone().delay(d, local_sched()).actual_subscribe(p))
+      }
+    } else {
+      let p = FeedbackProbe { log: log.clone(), limit: case.limit as i64, local: None, shared: Some(hot_s.clone()) };
+      if case.delay == 0 {
+        Box::new(hot_s.clone().observe_on_threads(shared_sched()).actual_subscribe(p))
+      } else {
+        Box::new(hot_s.clone().delay_threads(d, shared_sched()).actual_subscribe(p))
+      }
+    };
+    let r = std::panic::catch_unwind(std::panic::AssertUnwindSafe(|| {
+      if case.threads_flavour {
+        hot_s.next(Val::I(1))
+      } else {
+        hot_l.next(Val::I(1))
+      }
+      let mut i = 0usize;
+      let mut polls = 0;
+      loop {
+        if w.ready_count() > 0 {
+          let c = if case.any_ready { *case.choices.get(i).unwrap_or(&0) as usize } else { 0 };
+          i += 1;
+          w.run_task(c);
+          polls += 1;
+          if polls > 2000 {
+            break;
+          }
+        } else if !w.advance_next() {
+          break;
+        }
+      }
+    }));
+    let evs = log.events();
+    let want: Vec<Ev> = (1..=case.limit as i64).map(|k| Ev::Next(Val::I(k))).collect();
+    let site = format!("{}{} feedback", if case.delay == 0 { "ObserveOn" } else { "Delay" }, if case.threads_flavour { "_threads" } else { "" });
+    let mut violation = None;
+    if let Err(p) = r {
+      violation = Some(Violation { rule: "c07.panic".into(), site: site.clone(), detail: format!("panic while the subscriber fed the next item into its own source: {}", panic_message(&*p)) });
+    } else if evs != want {
+      violation = Some(Violation {
+        rule: "c07.items-lost".into(),
+        site: site.clone(),
+        detail: format!("the subscriber re-feeds k+1 on receiving k (1..={}); executor idle, delivered [{}]", case.limit, fmt_trace(&evs)),
+      });
+    }
+    let h = hash_mix(hash_str(&site), hash_str(&fmt_trace(&evs)));
+    let sim = w.now();
+    drop(_sub);
+    drop(w);
+    Ok(Outcome {
+      violation,
+      trace_hash: h,
+      nontrivial: true,
+      sim_ns: sim,
+      steps: case.limit as u64,
+      faults: vec![("emission_from_inside_a_delivery", case.limit as u64 - 1)],
+      reach: vec![],
+      resolved: None,
+      sample: format!("{} limit={} => [{}]", site, case.limit, fmt_trace(&evs)),
+    })
   }
 }
